@@ -203,6 +203,8 @@ def exec : Nat → Work → M Ret
       | .sysAccept l' nfd err =>
         if l' != l then throw s!"accept on {l'} instead of {l}"
         if err == "nil" then
+          -- the trace names every accepted descriptor freshly (the driver never reuses a name)
+          if (← get).conns.any (·.1 == nfd) then throw s!"descriptor name {nfd} is already in use"
           modify fun s => { s with conns := s.conns ++ [(nfd, {})], nconn := s.nconn + 1 }
           exec fuel (.register0 nfd)
         else if err == "EINTR" || err == "EAGAIN" || err == "ECONNRESET" || err == "ECONNABORTED" then pure {}
@@ -258,7 +260,9 @@ def exec : Nat → Work → M Ret
       | t => mismatch s!"sys write {c} (OnOpen reply)" t
     | .processIO c mask => do
       if has mask (evERR ||| evHUP ||| evRDHUP) && !has mask (evIN ||| evPRI ||| evOUT) then
-        modConn c fun x => { x with outbound := [] }     -- outboundBuffer.Release()
+        -- outboundBuffer.Release(): "don't bother to write to a connection that is already broken";
+        -- the bytes are dropped on purpose and leave the ghost log of accepted bytes as well
+        modConn c fun x => { x with outbound := [], accepted := x.toKernel }
         exec fuel (.close c false)
       else
         let r1 ← if has mask (evOUT ||| evERR ||| evHUP) then exec fuel (.elWrite c) else pure {}
@@ -535,6 +539,7 @@ def exec : Nat → Work → M Ret
       match ← pop with
       | .ret out action =>
         if kind == "open" then
+          if !(← getConn c).opened then pure {} else    -- closed inside OnOpen
           match out with
           | some buf =>
             modConn c fun x => { x with accepted := x.accepted ++ buf }
@@ -662,13 +667,13 @@ def exec : Nat → Work → M Ret
         | "read" =>
           let k := min argN.toNat all.length
           checkHop op k (if k == 0 && argN > 0 then "shortbuffer" else "nil") (all.take k)
-          modConn l fun x => { x with buffer := x.buffer.drop k }
+          modConn l fun x => { x with consumed := x.consumed ++ x.buffer.take k, buffer := x.buffer.drop k }
         | "next" =>
           if argN > all.length then checkHop op 0 "shortbuffer" []
           else
             let k := if argN ≤ 0 then all.length else argN.toNat
             checkHop op k "nil" (all.take k)
-            modConn l fun x => { x with buffer := x.buffer.drop k }
+            modConn l fun x => { x with consumed := x.consumed ++ x.buffer.take k, buffer := x.buffer.drop k }
         | "peek" =>
           if argN > all.length then checkHop op 0 "shortbuffer" []
           else
@@ -677,7 +682,7 @@ def exec : Nat → Work → M Ret
         | "discard" =>
           let k := if argN ≥ all.length || argN ≤ 0 then all.length else argN.toNat
           checkHop op k "nil" []
-          modConn l fun x => { x with buffer := x.buffer.drop k }
+          modConn l fun x => { x with consumed := x.consumed ++ x.buffer.take k, buffer := x.buffer.drop k }
         | "inbuf" => checkHop op all.length "nil" []
         | "write" =>
           let payload := (parseHexSegs arg).flatten
